@@ -149,6 +149,36 @@ def check(spec):
                     seen_seq.append(i)
                 if tag and tag.calls != accesses:
                     raise Violation("transform-not-applied-on-every-access", f"{tag.calls} transform calls for {accesses} accesses")
+            elif k == "oob":
+                j = n + op[1]
+                try:
+                    got = sd[j]
+                except IndexError:
+                    pass
+                else:
+                    raise Violation("out-of-range-index-answered", f"index {j} of a dataset with {n} samples returned {got!r} (the wrapped dataset raises IndexError)"[:300])
+                if loads() != before:
+                    raise Violation("out-of-range-index-loads-a-sample", "")
+                flags.add("oob")
+            elif k == "iterate":
+                import itertools
+                got = list(itertools.islice(iter(sd), n + 3))
+                accesses += len(got)
+                if len(got) != n:
+                    raise Violation("iteration-length-differs", f"iterating the cached dataset yields {len(got)}{'+' if len(got) > n else ''} samples, the wrapped dataset {n}")
+                for i, g_ in enumerate(got):
+                    if not treg.out_equal(g_, expected(i)):
+                        raise Violation("observation-differs-from-wrapped-dataset", f"iteration index {i}")
+                    if i in cleared_since:
+                        reaccess_after_clear = True
+                        cleared_since.discard(i)
+                cached |= set(range(n))
+                seen_seq += list(range(n))
+                if tag:
+                    # the probing access at index n raises before the transform runs
+                    if tag.calls != accesses:
+                        raise Violation("transform-not-applied-on-every-access", f"{tag.calls} transform calls for {accesses} accesses")
+                flags.add("iterate")
             elif k == "clear":
                 sd.dispose()
                 cleared_since |= cached
@@ -217,13 +247,17 @@ def check(spec):
 
 @st.composite
 def op(draw, tier):
-    k = draw(st.sampled_from(["get", "get", "get", "many", "clear"] + (["readers"] if tier == "thorough" else ["readers"] * 0)))
+    k = draw(st.sampled_from(["get", "get", "get", "many", "clear", "oob", "iterate"] + (["readers"] if tier == "thorough" else ["readers"] * 0)))
     if k == "get":
         return ["get", draw(st.integers(0, 30))]
     if k == "many":
         return ["many", draw(st.lists(st.integers(0, 30), min_size=1, max_size=6))]
     if k == "clear":
         return ["clear"]
+    if k == "oob":
+        return ["oob", draw(st.integers(0, 5))]
+    if k == "iterate":
+        return ["iterate"]
     R = draw(st.sampled_from([2, 3]))
     return ["readers", [draw(st.lists(st.integers(0, 30), min_size=1, max_size=5)) for _ in range(R)]]
 
